@@ -66,13 +66,14 @@ def timings (evs : List Ev) (sb : Nat) : String :=
 def step (t : List String) : Option String :=
   match t with
   | cmd :: rest =>
-      if cmd != "tree" ∧ cmd != "treen" then none else
-      let noop := cmd == "treen"
+      if cmd != "tree" ∧ cmd != "treen" ∧ cmd != "treenh" then none else
+      let noop := cmd == "treen" ∨ cmd == "treenh"
+      let hooksOnly := cmd == "treenh"     -- built without RLBOX_MEASURE_TRANSITION_TIMES: same notifications, no timing records
       let w0 := World.init (if noop then 64 else 8)
       let w1 := ((w0.create 0 true 0).map (·.1)).getD w0
       let w2 := ((w1.create 1 true 0).map (·.1)).getD w1
       match runRegs w2 rest [] with
-      | none => some "x T0= T1="
+      | none => some (if hooksOnly then "x T0=none T1=none" else "x T0= T1=")
       | some (w, toks, log) =>
         let (invs0, _) := parseInvs toks
         -- C nodes name the j-th registration of the line; its entry point is the slot it was given
@@ -81,7 +82,7 @@ def step (t : List String) : Option String :=
         let slots : SlotMap := fun sb k => (w.sbx sb).slots k
         let r := runInvs slots invs
         let evs := log ++ r.evs.map showEv ++ (if r.exc then ["x"] else [])
-        some (String.intercalate ";" evs ++ s!" T0={timings r.evs 0} T1={timings r.evs 1}")
+        some (String.intercalate ";" evs ++ (if hooksOnly then " T0=none T1=none" else s!" T0={timings r.evs 0} T1={timings r.evs 1}"))
   | [] => none
 
 end Driver.CallsEng
